@@ -71,6 +71,7 @@ class FakeLink:
         self.stopped = False
         self.bell_override: Optional[Callable[[dict, int], LinkBell]] = None
         self.goodness_override: Optional[Callable[[dict, int], Optional[int]]] = None   # the reported generation duration
+        self.lazy = 0 if (max_gen_delay == 0) else ch.pick([0, 0, 0, 25, 150])   # extra scheduler turns per generated pair
         self.phys_from_executor = False          # physical ids of delivered halves: own numbering (1000+) or the executor's
         self.reserved: Dict[int, set] = {}       # node -> physical qubits reserved for pairs in flight / not yet mapped
         self.validate_all = False
@@ -152,6 +153,13 @@ class FakeLink:
             job = q[0]
             for k in range(job["number"]):
                 yield ("sleep", self.ch.draw(self.max_gen_delay + 1, "gen-delay"))
+                if self.lazy:
+                    # a slow link: under a scheduler that picks parties at random a delay is only felt if it costs turns
+                    for _ in range(self.ch.draw(self.lazy + 1, "gen-lazy")):
+                        yield ("sleep", 1)
+                        if self.stopped:
+                            return
+                    self.bump("slow-pair-generation")
                 self._make_pair(job, k)
             q.pop(0)
 
